@@ -23,7 +23,7 @@ EXPLANATION = (
     "its norm, sources are instances[:, edge_inds[:,0]] and destinations [:,1], the weight multiplies the unit vector and the "
     "layout is permuted to (edges, 2, H, W) before the (2*edges) flattening; (call) every dataset / streaming / pipeline call "
     "passes flatten_channels=True, the skeleton's edge_inds and sigma/output_stride of the PAF head. Not decided: monotonicity of "
-    "the weight, the in-image filter, channel numbering (pinned by tests)."
+    "the weight, channel numbering (pinned by tests)."
 )
 TRUSTED = ["CPython ast", "networkx reachability", "torch.clamp / exp facts used by the sign engine"]
 EM = "sleap_nn.data.edge_maps"
@@ -198,6 +198,40 @@ def check_dir(prog: Program, res: Result) -> None:
     res.floor(R, 8)
 
 
+def check_inimg(prog: Program, res: Result) -> None:
+    """The in-image filter keeps an animal iff some node lies strictly inside (0, last grid x) x (0, last grid y)."""
+    R = "C05-inimg"
+    for q in (f"{EM}:generate_pafs", f"{EM}:PartAffinityFieldsGenerator.__iter__"):
+        g = prog.func(q)
+        res.touch(g)
+        defs = sorted([s_ for s_ in astq.assignments_to(g.node, "in_img") if isinstance(s_, ast.Assign)], key=lambda s_: s_.lineno)
+        exprs = [d.value for d in defs]
+        # collapse a chain  in_img = A; in_img = in_img.all(...).any(...)  or one expression
+        full = exprs[-1] if exprs else None
+        txt = norm(full).replace(" ", "") if full is not None else ""
+        first = norm(exprs[0]).replace(" ", "") if exprs else ""
+        ext = [n for e in exprs for n in ast.walk(e) if isinstance(n, ast.Call) and norm(n.func) == "torch.stack"]
+        ext_d = ext[0] if ext else None
+        if ext_d is None:
+            for e in exprs:
+                for nm in astq.loads_in(e):
+                    d = astq.deref(g.node, ast.Name(nm, ast.Load()))
+                    for n in ast.walk(d) if d is not None and not isinstance(d, ast.Name) else []:
+                        if isinstance(n, ast.Call) and norm(n.func) == "torch.stack":
+                            ext_d = n
+        order = [norm(e) for e in ext_d.args[0].elts] if ext_d is not None and ext_d.args and isinstance(ext_d.args[0], (ast.List, ast.Tuple)) else []
+        res.ob(R, order == ["xv[-1]", "yv[-1]"], g.qualname, "extent = (last grid x, last grid y), matching the (x, y) order of keypoints",
+               f"the in-image extent is built as {order}: x coordinates are compared with the grid HEIGHT (animals near the border of a non-square image are kept/dropped wrongly)",
+               g.where, sample={"extent": order})
+        cmp_ok = "(instances>0)&(instances<" in first or "(instances>0)&(instances<" in txt
+        red_ok = ".all(dim=-1).any(dim=1)" in txt
+        res.ob(R, cmp_ok and red_ok, g.qualname, "animal kept iff some node is strictly inside: all over (x, y), any over nodes",
+               f"the in-image mask is `{short(full, 80) if full is not None else '?'}`", g.where)
+        sel = [s_ for s_ in astq.assignments_to(g.node, "instances") if isinstance(s_, ast.Assign) and norm(s_.value) == "instances[in_img]"]
+        res.ob(R, len(sel) == 1, g.qualname, "only in-image animals reach the edge points", "instances are not filtered by the in-image mask", g.where)
+    res.floor(R, 6)
+
+
 def check_call(prog: Program, res: Result) -> None:
     R = "C05-call"
     n = 0
@@ -232,8 +266,9 @@ def check(prog: Program, res: Result) -> None:
     check_sum(prog, res)
     check_range(prog, res)
     check_dir(prog, res)
+    check_inimg(prog, res)
     check_call(prog, res)
-    res.assumptions += ["sigma > 0", "monotonicity of the weight, the in-image filter and the channel numbering are not decided"]
+    res.assumptions += ["sigma > 0", "monotonicity of the weight, the channel numbering is not decided"]
 
 
 F = "sleap_nn/data/edge_maps.py"
@@ -248,5 +283,6 @@ VARIANTS = [
     Variant("dir-no-clamp", F, "    line_projections = torch.clamp(line_projections, min=0, max=1)\n", "", "C05-range"),
     Variant("call-confmap-sigma", "sleap_nn/data/streaming_datasets.py", "            sigma=self.pafs_head.sigma,", "            sigma=self.confmap_head.sigma,", "C05-call"),
     Variant("call-no-flatten", "sleap_nn/data/custom_datasets.py", "            edge_inds=torch.Tensor(self.edge_inds),\n            flatten_channels=True,", "            edge_inds=torch.Tensor(self.edge_inds),\n            flatten_channels=False,", "C05-call"),
+    Variant("inimg-extent-swapped", F, "    in_img = (instances > 0) & (instances < torch.stack([xv[-1], yv[-1]]).view(1, 1, 2))", "    in_img = (instances > 0) & (instances < torch.stack([yv[-1], xv[-1]]).view(1, 1, 2))", "C05-inimg"),
     Variant("bp-nan-to-num", F, "        paf[torch.isnan(paf)] = 0.0\n", "        paf = torch.nan_to_num(paf)\n", None),
 ]
